@@ -11,6 +11,7 @@ let str_reason = function
   | TooManyArgs -> "TooManyArgs"
   | DupArg k -> "DupArg:" ^ str_okey k
   | UnknownArg k -> "UnknownArg:" ^ str_okey k
+  | DynamicArg -> "DynamicArg"
 
 let str_sres = function
   | Ok e -> "OK " ^ str_expr e
